@@ -230,7 +230,7 @@ def stream_machine(ctx, H):
         if r.ok:
             ctx.traces += ntr
         else:
-            st = to_json(r.trace[-1]["state"]) if r.trace else {}
+            st = to_json(T.materialise(r.trace[-1])) if r.trace else {}
             ctx.fail("recorded handler run is not a behaviour of WsStream (%s): frames %s, stuck at read %s = [bytes, delivered, content_ok, raised] %s, specification expects %s delivered"
                      % (r.violation["name"], st.get("frames"), st.get("l"), st.get("ev"), st.get("expected")), dict(kind="stream_trace", state=st))
     finally:
